@@ -224,10 +224,55 @@ func init() {
 			}
 		}
 	}
+	gens["c07-literals"] = func(c *enumx.Ctx) {
+		// free-text values (keys, string filters, watch paths) that READ like something else: integer literals of every
+		// notation, floats, booleans, null words, field / syscall / list / operator names, flags: text stays text in every place
+		// a key or string value can stand (watch -k, -F key=, -k on a syscall rule, string filters)
+		words := []string{"0x10", "0X1f", "0b101", "0B11", "0o17", "0O7", "017", "1_000", "0x_ff", "+5", "-5", "1e3", "1.0", ".5", "0x1p4", "1E2", "00", "0", "007", "4294967296", "18446744073709551616", "-1", "0x", "0b", "١٢",
+			"true", "false", "null", "nil", "none", "NaN", "inf", "unset", "all", "open", "always", "exit", "task", "uid", "key", "path", "dir", "perm", "arch", "b64", "b32", "rwxa", "wa", "SYSCALL", "EPERM", "-EPERM", "root",
+			"-k", "-w", "-p", "-S", "-F", "-a", "--", "-", "k=v", "a!=b", "a&b", "a<=b", "x,y"}
+		dir, cleanup := scratch()
+		defer cleanup()
+		for _, w := range words {
+			if !c.Mine() {
+				continue
+			}
+			_ = os.WriteFile(dir+"/"+w, []byte("x"), 0o644)
+			kw := w
+			if strings.Contains(kw, ",") {
+				kw = strings.ReplaceAll(kw, ",", ".") // a comma separates keys on the command line (recorded known finding for watches)
+			}
+			for _, l := range []string{
+				"-w " + dir + "/f -p wa -k " + shq(kw),
+				"-w " + dir + "/d -p r -k " + shq(kw) + " -k other",
+				"-w " + shq(dir+"/"+w) + " -p wa",
+				"-a always,exit -F path=" + dir + "/f -F perm=wa -F key=" + kw,
+				"-a always,exit -F dir=" + dir + "/d -F perm=x -F key=" + kw,
+				"-a always,exit -S open -F uid=0 -k " + shq(kw),
+				"-a never,exit -S all -F key=" + w,
+				"-a always,exit -S open -F exe=/bin/" + w + " -F subj_user=" + w + " -F obj_type=" + w,
+			} {
+				roundTrip(c, l, "literal-looking", "")
+			}
+		}
+	}
 	gens["c07-watches"] = func(c *enumx.Ctx) {
 		dir, cleanup := scratch()
 		defer cleanup()
 		forWatchSpecs(c, dir, func(c *enumx.Ctx, w watchSpec) { roundTrip(c, w.line(), "watch", "") })
+		// names that change their kind while the process lives: the watch, and the watch-shaped rule that agrees with
+		// the file system as it is NOW, round-trip after every change
+		forWatchHistories(c, dir, func(c *enumx.Ctx, w watchSpec) {
+			roundTrip(c, w.line(), "watch", " after-change:"+w.Kind)
+			fld := "path"
+			if watchIsDir(w.Kind) {
+				fld = "dir"
+			}
+			roundTrip(c, "-a always,exit -S all -F "+fld+"="+w.Path+" -F perm="+w.Perms, "watch-shaped", " after-change:"+w.Kind)
+			withoutDescriptors(func() {
+				roundTrip(c, "-a always,exit -F "+fld+"="+w.Path+" -F perm="+w.Perms+" -F key=k", "watch-shaped", " no-descriptors:"+w.Kind)
+			})
+		})
 		// watch-shaped syscall rules: perm + path/dir + optional key in every field order, !=, never, no path
 		// the same through links: dir= a link to a directory, path= a link to a file (inside the stated
 		// domain: stat says directory / non-directory)
@@ -301,17 +346,22 @@ func init() {
 func bigRuleLines() []string {
 	fields := []string{"dir", "exe", "subj_user", "subj_role", "subj_type", "obj_user", "obj_role", "obj_type"}
 	var out []string
-	for k := 1; k <= len(fields); k++ {
+	// 1..8 distinct fields, then counts up to the 64 a rule can carry (fields repeat): sums of per-string
+	// quantities cross 2^15, 2^16 and 2^17 while every single string stays small
+	for _, k := range []int{1, 2, 3, 4, 5, 6, 7, 8, 12, 15, 16, 17, 20, 24, 31, 32, 33, 48, 60, 62, 63, 64} {
 		for _, L := range []int{255, 256, 1000, 1500, 2000, 2700, 3000, 4000, 4095, 4096} {
+			if k > 8 && L != 256 && L != 1000 && L != 2000 && L != 4000 && L != 4096 {
+				continue
+			}
 			for _, key := range []int{0, 256} {
 				var p []string
 				for i := 0; i < k; i++ {
-					v := "/" + strings.Repeat(string(rune('a'+i)), L-1)
+					v := "/" + strings.Repeat(string(rune('a'+i%26)), L-1)
 					op := "="
 					if i%3 == 2 {
 						op = "!="
 					}
-					p = append(p, "-F "+fields[i]+op+v)
+					p = append(p, "-F "+fields[i%len(fields)]+op+v)
 				}
 				line := "-a always,exit -S 2 " + strings.Join(p, " ")
 				if key > 0 {
